@@ -374,6 +374,10 @@ func (c18) Eval(c *Chooser, env *Env) *Outcome {
 	disk := kern.NewDisk()
 	disk.Put("/w/r/.github/workflows/t.yml", []byte(src))
 	disk.MkdirAll("/w/r/.git")
+	if c.Weighted("world.fromapipe", 1, 20) {
+		// the workflow arrives through a named pipe / a process substitution: readable, but stat says size 0
+		disk.Pipes = map[string]bool{"/w/r/.github/workflows/t.yml": true}
+	}
 	w := &World{Disk: disk, Cwd: "/w/r", CPUs: 2, API: APIFile, Files: []string{".github/workflows/t.yml"}, Note: "C18 needs graph"}
 	if c.Weighted("world.loglevel", 1, 6) {
 		// the verdict must not depend on how much the linter logs
